@@ -2,7 +2,7 @@
    Statements only (lemmas in theories/RouterProofs.v).  [tserves d segs v]:
    declaration d's template matches the path and its range contains the
    version — the method left free. *)
-From DS Require Import Base Versions VersionsProofs Router RouterSpec RouterProofs.
+From DS Require Import Base Versions VersionsProofs Router RouterSpec RouterProofs Pct PathNorm Route Pipeline PipelineProofs.
 
 Section C04.
   Variable V : Type.
@@ -41,6 +41,26 @@ Section C04.
     lookup V cmp r m segs v = E404 \/
     (exists allow, lookup V cmp r m segs v = E405 allow).
   Proof. exact (lookup_exhaustive V cmp). Qed.
+
+  (* 5. through the whole request pipeline (Pipeline.v): 404 exactly when the
+     policy yields a version, the path normalises and no declaration serves
+     the path at that version under any method; a 405 carries exactly the
+     methods served there *)
+  Theorem C04_pipeline_404_iff : forall (parse : str -> option V) (p : policy V) (eps : list (decl V)) r m rawpath h,
+    build V cmp eps = Ok r ->
+    (handle V cmp parse p r m rawpath h = HNotFound <->
+     exists ov segs, request_version V cmp parse p h = Ok ov /\ input_segments rawpath = Ok segs /\
+                     forall d, In d eps -> tserves V cmp d segs ov = false).
+  Proof. exact (handle_404_iff V cmp). Qed.
+
+  Theorem C04_pipeline_405 : forall (parse : str -> option V) (p : policy V) (eps : list (decl V)) r m rawpath h allow,
+    build V cmp eps = Ok r -> handle V cmp parse p r m rawpath h = HNotAllowed allow ->
+    exists ov segs, request_version V cmp parse p h = Ok ov /\ input_segments rawpath = Ok segs /\
+      allow <> [] /\ keys_sorted allow /\
+      (forall k, In k allow <->
+                 exists d, In d eps /\ tserves V cmp d segs ov = true /\ str_upper (e_method (snd d)) = k) /\
+      (forall d, In d eps -> serves V cmp d m segs ov = None).
+  Proof. exact (handle_405 V cmp). Qed.
 End C04.
 
 (* non-vacuity: versions at which only some methods of a path exist *)
@@ -67,3 +87,5 @@ Print Assumptions C04_404_iff.
 Print Assumptions C04_405_allow_exact.
 Print Assumptions C04_405_iff.
 Print Assumptions C04_outcomes_exhaustive.
+Print Assumptions C04_pipeline_404_iff.
+Print Assumptions C04_pipeline_405.
